@@ -28,7 +28,8 @@ RULE = ("programs: exprgen (0-4 dims, dims 0-13 incl. 0 and 1, chunks 1..dim+1 c
         "squeeze, expand_dims, permute_dims, reduce, argreduce, cumulative, rechunk, qr, ...); direct calls on random metas "
         "(rank 1-4, dims 0-13, chunks 1..dim+1, <=64 blocks): map_blocks with chunks/drop_axis/new_axis, partial_reduce with "
         "split_every/combine_sizes, merge_chunks, rechunk, expand_dims/squeeze with 1-2 axes, index (ints, int arrays, slices "
-        "with steps in +-1..7), repeat, broadcasting add, multi-axis reductions; dtype sweep: 27 unary/reduction functions x 13 "
+        "with steps in +-1..7), repeat, broadcasting add, multi-axis reductions, Array.blocks[...] (ints, slices, lists of block "
+        "indexes sorted/reordered/repeated, short last blocks incl. extent 1, plus 16 fixed cases); dtype sweep: 27 unary/reduction functions x 13 "
         "dtypes, 13 binary functions x 13 dtypes, add over all 156 mixed pairs; optimize_graph on and off; every out coordinate "
         "of every op in the oracle, <=64 per op in the correspondence; non-trivial = some array of the case has >1 block / "
         "the op has >1 out block; distinct by JSON description / request text")
@@ -412,6 +413,15 @@ def call_requests(calls, by_array, rng, want_blocks=True):
                 if src is None or len(src) < 2 or src[1] is None or len(src[1].shape) != 2:
                     continue
                 add(fn, "qr3|%s|%s" % (enc_chunks(q1.chunks), enc_nats(src[1].shape)), res)
+            elif fn == "blocks":
+                if not isinstance(res, ArrayMeta):
+                    continue
+                bv, key = c["raw_args"][0], c["raw_args"][1]
+                x = ArrayMeta(bv.array)
+                sels = block_selection(key, x.numblocks)
+                if sels is None:
+                    continue
+                add(fn, "blocks|%s|%s" % (enc_chunks(x.chunks), enc_chunks(sels)), res)
             elif fn == "arg_reduction":
                 x = a[0]
                 axis = kw.get("axis")
@@ -609,7 +619,7 @@ def direct_cases(ctx, n):
         shape, chunks = rand_meta(rng, ndim=rng.choice([1, 2, 2, 3, 3, 4]))
         an = np.arange(int(np.prod(shape)), dtype="int64").reshape(shape)
         kind = rng.choice(["mb_drop", "mb_new", "mb_chunks", "pr", "pr_comb", "merge", "rechunk", "expand", "squeeze", "mb_same2",
-                           "index", "index", "repeat", "bcast", "reduce"])
+                           "index", "index", "repeat", "bcast", "reduce", "blocks", "blocks"])
         case = {"kind": kind, "shape": shape, "chunks": chunks}
         try:
             with CallTracer() as t:
@@ -687,6 +697,10 @@ def direct_cases(ctx, n):
                     r = x[tuple(key)]
                     if r is x:
                         continue
+                elif kind == "blocks":
+                    key = rand_blocks_key(rng, x.numblocks)
+                    case["key"] = [([k.start, k.stop, k.step] if isinstance(k, slice) else k) for k in key]
+                    r = x.blocks[key]
                 elif kind == "repeat":
                     ax = rng.randrange(nd)
                     rep = rng.choice([1, 2, 2, 3, 3, 4, 5])
@@ -1186,6 +1200,152 @@ def family_programs(ctx, k):
                 break
 
 
+def block_selection(key, numblocks):
+    """per axis the list of selected block indexes of `Array.blocks[key]` (ndindex canonical form), or None"""
+    import ndindex
+    import numpy as np
+    if not isinstance(key, tuple):
+        key = (key,)
+    try:
+        idx = ndindex.ndindex(key).expand(tuple(numblocks))
+    except Exception:  # noqa: BLE001
+        return None
+    out = []
+    for ia, nb in zip(idx.args, numblocks):
+        if isinstance(ia, ndindex.Integer):
+            out.append([int(ia.raw) % nb])
+        elif isinstance(ia, ndindex.Slice):
+            out.append(list(range(nb))[ia.raw])
+        elif isinstance(ia, ndindex.IntegerArray):
+            out.append([int(v) % nb for v in np.asarray(ia.raw).ravel()])
+        else:
+            return None
+    return out
+
+
+def rand_blocks_key(rng, numblocks):
+    """ints, slices and lists of block indexes (sorted, reordered, repeated; the last -- possibly short -- block is
+    selected often); at most one list (ndindex / BlockView restriction)"""
+    key, used_list = [], False
+    for nb in numblocks:
+        q = rng.random()
+        if q < 0.2:
+            key.append(rng.choice([nb - 1, -1, rng.randrange(nb), rng.randrange(nb) - nb]))
+        elif q < 0.45:
+            a_ = rng.randrange(nb)
+            b_ = rng.randint(a_ + 1, nb)
+            key.append(slice(a_, b_) if rng.random() < 0.7 else slice(a_, None, rng.choice([1, 2])))
+        elif q < 0.55 or used_list:
+            key.append(slice(None))
+        else:
+            used_list = True
+            k = rng.randint(1, min(nb, 4))
+            m = rng.random()
+            if m < 0.5:
+                sel = sorted(rng.sample(range(nb), k))
+                if rng.random() < 0.6 and (nb - 1) not in sel:
+                    sel = sel[:-1] + [nb - 1]
+            elif m < 0.75:
+                sel = rng.sample(range(nb), k)
+            else:
+                sel = sorted(rng.choice(range(nb)) for _ in range(k + 1))
+            key.append(sel)
+    return tuple(key)
+
+
+def blocks_reference(an, chunks, sels):
+    """the elements of the selected blocks, block after block, per axis"""
+    import numpy as np
+    idx = []
+    for ch, sel in zip(chunks, sels):
+        starts = [0]
+        for c in ch:
+            starts.append(starts[-1] + c)
+        e = []
+        for b in sel:
+            e.extend(range(starts[b], starts[b + 1]))
+        idx.append(np.asarray(e, dtype=np.int64))
+    return an[np.ix_(*idx)] if idx else an
+
+
+BLOCKS_FIXED = [   # (shape, chunks, key, then-negative)  -- the cases of seeded/C12-1/demo.py
+    ((9,), (4,), (0,), False), ((9,), (4,), (-1,), False), ((9,), (4,), (slice(1, 3),), False), ((9,), (4,), ([0, 1],), False),
+    ((9,), (4,), ([2],), False), ((9,), (4,), ([0, 2],), False), ((9,), (4,), ([0, 1, 2],), False), ((9,), (4,), ([1, 2],), True),
+    ((9, 5), (4, 2), (-1, -1), False), ((9, 5), (4, 2), (slice(0, 2), [0, 1]), False), ((9, 5), (4, 2), ([0, 2], slice(0, 1)), False),
+    ((9, 5), (4, 2), (slice(1, 2), [1, 2]), False), ((9, 5), (4, 2), (slice(2, 3), [0, 2]), False),
+    ((10,), (4,), ([0, 2],), False), ((10,), (4,), ([2, 2],), False), ((7, 3), (3, 2), ([1, 2], [0, 1]), False),
+]
+
+
+def check_blocks_case(ctx, shape, chunks, key, neg, kind):
+    """`Array.blocks[key]`: declared shape/chunks == computed == stored == the selected blocks; every block == its region."""
+    import numpy as np
+
+    import cubed.array_api as xp
+    from cubed.utils import normalize_chunks
+    an = np.arange(int(np.prod(shape)), dtype="int64").reshape(shape) + 1
+    jkey = [([k.start, k.stop, k.step] if isinstance(k, slice) else k) for k in key]
+    case = {"kind": "blocks", "shape": list(shape), "chunks": list(chunks), "key": jkey, "then_negative": neg,
+            "replay": "x = asarray(arange(prod(shape)).reshape(shape)+1, chunks=chunks); r = x.blocks[key]"}
+    try:
+        x = xp.asarray(an, chunks=chunks, spec=_spec())
+        sels = block_selection(key, x.numblocks)
+        r0 = x.blocks[key]
+        r = xp.negative(r0) if neg else r0
+    except DECLINE:
+        ctx.dist[kind + ":decline"] += 1
+        return
+    except Exception as e:  # noqa: BLE001
+        ctx.dist[kind + ":build-error:" + type(e).__name__] += 1
+        return
+    ref = blocks_reference(an, x.chunks, sels)
+    ref = -ref if neg else ref
+    declared = (tuple(r.shape), r.dtype, r.chunks)
+    nontrivial = x.npartitions > 1
+    ctx.count({"blocks": case}, nontrivial=nontrivial, kind=kind)
+    if declared[0] != tuple(ref.shape):
+        ctx.fail("Array.blocks: declared shape %s, the selected blocks have shape %s (declared chunks %s)"
+                 % (declared[0], tuple(ref.shape), declared[2]), case, key=None)
+    for opt in (False, True):
+        ex, res, err = run_recorded([r], optimize=opt)
+        if ex.mismatches:
+            m = ex.mismatches[0]
+            ctx.fail("Array.blocks: block of shape %s returned for out coords %s of %s but the region it is written to has shape %s"
+                     % (m["block"], list(m["coords"]), m["array"], m["region"]), dict(case, optimize_graph=opt), key=None)
+            return
+        if err is not None:
+            ctx.fail("Array.blocks: accepted while building but a task fails: " + err, dict(case, optimize_graph=opt), key=None)
+            return
+        v = np.asarray(res[r.name])
+        if tuple(v.shape) != declared[0] or v.dtype != declared[1] or not np.array_equal(v, ref):
+            ctx.fail("Array.blocks: declared (%s, %s), computed (%s, %s), values equal to the selected blocks: %s"
+                     % (declared[0], declared[1], tuple(v.shape), v.dtype, np.array_equal(v, ref) if v.shape == ref.shape else False),
+                     dict(case, optimize_graph=opt), key=None)
+            return
+        if r.size > 0:
+            z = r._zarray.open() if hasattr(r._zarray, "open") else r._zarray
+            zch = normalize_chunks(z.chunks, shape=z.shape, dtype=z.dtype)
+            if tuple(z.shape) != declared[0] or z.dtype != declared[1] or zch != declared[2]:
+                ctx.fail("Array.blocks: declared %s but the backing zarr array has (%s, %s, %s)" % (declared, tuple(z.shape), z.dtype, zch),
+                         dict(case, optimize_graph=opt), key=None)
+                return
+
+
+def blocks_oracle(ctx, n):
+    for shape, chunks, key, neg in BLOCKS_FIXED:
+        check_blocks_case(ctx, shape, chunks, key, neg, "blocks-fixed")
+    rng = ctx.rng
+    for _ in range(n):
+        shape, chunks = rand_meta(rng, ndim=rng.choice([1, 1, 2, 2, 3]), lo=1)
+        if rng.random() < 0.5:   # make the last block short (often of extent 1)
+            ax = rng.randrange(len(shape))
+            c = rng.randint(2, 5)
+            shape = tuple((c * rng.randint(1, 3) + rng.choice([1, 1, 2])) if i == ax else s for i, s in enumerate(shape))
+            chunks = tuple(c if i == ax else ch for i, ch in enumerate(chunks))
+        nbs = tuple(-(-s // c) for s, c in zip(shape, chunks))
+        check_blocks_case(ctx, shape, chunks, rand_blocks_key(rng, nbs), rng.random() < 0.2, "blocks")
+
+
 def argreduce_regressions(ctx):
     """argmax / argmin / nanargmax / nanargmin with axis -1, -2 and keepdims both ways (fixed b0bb103): every block matches
     its region, every intermediate's declared chunks are what is computed, the result has NumPy's shape and values."""
@@ -1225,6 +1385,7 @@ def argreduce_regressions(ctx):
 def oracle(ctx):
     _quiet()
     argreduce_regressions(ctx)
+    blocks_oracle(ctx, ctx.budget(40, 300))
     ctx.notes.append("dtype reference: " + DTYPE_RULES)
     known_triggers(ctx)
     dtype_sweep(ctx, ctx.budget(0.1, 0.5))
